@@ -198,9 +198,9 @@ Section FlowC.
         (forall j i, In j (map fst (lc ++ aC)) -> In i ds -> 0 < mget m i j -> In i (map fst (lr ++ aR))).
     Proof.
       intros I. rewrite sweep_eq.
-      destruct (gsweep_spec _ _ _ ps (map fst lr) lc _ (csweep_g lr lc)) as (aC & EC & AC & NC & CC).
+      destruct (gsweep_spec _ _ _ ps (map fst lr) lc _ (csweep_g lr lc)) as (aC & EC & AC & NC & CC & _).
       pose proof (rsweep_g lr (csweep lr lc)) as G2. rewrite EC in G2, NC, CC |- *.
-      destruct (gsweep_spec _ _ _ ds (map fst (lc ++ aC)) lr _ G2) as (aR & ER & AR & NR & CR).
+      destruct (gsweep_spec _ _ _ ds (map fst (lc ++ aC)) lr _ G2) as (aR & ER & AR & NR & CR & _).
       rewrite ER in NR, CR |- *.
       exists aR, aC. split; [reflexivity|].
       (* every column label points to a row labelled BEFORE this sweep *)
